@@ -316,6 +316,11 @@ class Interp:
             if o.kind == 'val':
                 v = o.val
                 if v[0] == 'lit' and isinstance(v[1], int):
+                    # `as` between integer types is exact on a literal: the value modulo 2^width of the target type, read in the
+                    # target's signedness (truncation, sign- and zero-extension are all this one function of the value)
+                    rng = INT_RANGE.get(hirq.strip_refs(str(e.get('ty') or '')))
+                    if rng is not None and not isinstance(v[1], bool) and not (rng[0] <= v[1] <= rng[1]):
+                        v = ('lit', (v[1] - rng[0]) % (rng[1] - rng[0] + 1) + rng[0])
                     outs.append(Out('val', v, o.st))
                 elif v[0] == 'ctor' and not v[2]:
                     # unit variant cast to integer: discriminant if known
@@ -1493,6 +1498,21 @@ def bin_term(op, a, b):
         return ('lit', (a[1] == b[1]) == (op == 'Eq'))
     if op in ('Eq', 'Ne') and a[0] == 'ctor' and b[0] == 'ctor' and not a[2] and not b[2]:
         return ('lit', (a[1] == b[1]) == (op == 'Eq'))
+    if op in ('Eq', 'Ne') and a == b and a[0] == 'call' and a[3] is None and not leaves(a, lambda z: z[0] == 'unk'):
+        # the same pure observer (`len`, `is_empty`, ...: site None, see PURE_OBSERVERS) of the same terms is one and the same value -
+        # the assumption `St.known` already makes when the same test is met twice on a path
+        return TRUE if op == 'Eq' else FALSE
+    if op in ('Lt', 'Le', 'Gt', 'Ge') and a == b and a[0] == 'call' and a[3] is None and a[1].rsplit('::', 1)[-1] == 'len' and not leaves(a, lambda z: z[0] == 'unk'):
+        return TRUE if op in ('Le', 'Ge') else FALSE      # n < n, n <= n for one and the same length n (an integer)
+    if op in ('Eq', 'Ne', 'Lt', 'Le', 'Gt', 'Ge'):
+        # Iterator::position(pred) answers Some(i) only with the index i of an element it visited, so i < the number of elements of
+        # the sequence it walked: against `len` of that very sequence term the comparison is decided.  (As everywhere in this
+        # domain the term of a sequence stands for its value; a rule that leans on this for a mutable local has to see that nothing
+        # changes its length in between - C15 V2.value-set-only-permuted does.)
+        flip = {'Eq': 'Eq', 'Ne': 'Ne', 'Lt': 'Gt', 'Le': 'Ge', 'Gt': 'Lt', 'Ge': 'Le'}
+        for x, y, o2 in ((a, b, op), (b, a, flip[op])):
+            if x[0] == 'posidx' and x[1][0] == 'position' and y[0] == 'call' and y[1].rsplit('::', 1)[-1] == 'len' and len(y[2]) == 1 and y[2][0] == x[1][1]:
+                return TRUE if o2 in ('Ne', 'Lt', 'Le') else FALSE
     if op == 'Ne':
         return ('not', ('bin', 'Eq', a, b))
     return ('bin', op, a, b)
